@@ -145,6 +145,7 @@ Inductive creds := CNone | CBasic (u p : string) | CBearer (b : bearer).
 Record env := {
   e_conf : list (string * user_desc);   (* users of data/config.json *)
   e_writable : bool;                    (* writableGroups *)
+  e_store_ok : bool;                    (* writing the temporary file, fsync and rename succeed *)
   e_groups : list (string * description); (* groups/<name>.json *)
   e_tokens : list stoken }.
 
@@ -521,15 +522,21 @@ Definition send_json (m : string) (b : body_out) : response :=
 Definition api_cors (m : string) : bool := String.eqb m "OPTIONS".
 
 Definition set_groups (e : env) (gs : list (string * description)) : env :=
-  {| e_conf := e_conf e; e_writable := e_writable e; e_groups := gs; e_tokens := e_tokens e |}.
+  {| e_conf := e_conf e; e_writable := e_writable e; e_store_ok := e_store_ok e; e_groups := gs;
+     e_tokens := e_tokens e |}.
 Definition set_tokens (e : env) (ts : list stoken) : env :=
-  {| e_conf := e_conf e; e_writable := e_writable e; e_groups := e_groups e; e_tokens := ts |}.
+  {| e_conf := e_conf e; e_writable := e_writable e; e_store_ok := e_store_ok e;
+     e_groups := e_groups e; e_tokens := ts |}.
 
 (* rewriteDescriptionFile: refused with NotAuthorisedError (401) unless
-   writableGroups *)
+   writableGroups; if creating, writing or syncing the temporary file or the
+   rename fails, the temporary file is removed, the group file is left as it
+   was and the error is answered (500) *)
 Definition rewrite_file (e : env) (name : string) (d : description) (ok : response)
   : env * response :=
-  if e_writable e then (set_groups e (assoc_set (e_groups e) (clean_name name) d), ok)
+  if e_writable e then
+    (if e_store_ok e then (set_groups e (assoc_set (e_groups e) (clean_name name) d), ok)
+     else (e, r500))
   else (e, r401).
 
 (* getJSON for a body of the expected kind *)
